@@ -1,15 +1,21 @@
 import CheetahModel.Proofs.Tables
+import CheetahModel.Proofs.TextProofs
 /-!
-# C13 — imported lattices mean what the lattice file says  (table part)
+# C13 — imported lattices mean what the lattice file says
 
-The Elegant / Bmad element-type dispatch (type strings → Cheetah class, keyword → expression, understood
-properties) is regenerated from the `if/elif parsed["element_type"] == …` chains of
+**Table part.**  The Elegant / Bmad element-type dispatch (type strings → Cheetah class, keyword → expression,
+understood properties) is regenerated from the `if/elif parsed["element_type"] == …` chains of
 `cheetah/converters/elegant.py` / `bmad.py` on every run and must equal the reviewed table
-(tools/spec/pinned.json).  The textual layer (regex chain, `eval`) and the expansion of lines are
-covered differentially by the falsifier (random abstract lattices rendered in many spellings).
+(tools/spec/pinned.json).
+
+**Text part.**  `CheetahModel/Text.lean` models the front end both importers share
+(`converters/utils/fortran_namelist.py`: comment / blank / case cleaning and the merging of continuation lines;
+`converters/utils/rpn.py`) and is tied to the code by correspondence (harness/text_corr.py, driver op `txt`).
+The theorems below hold for every list of lines.  The statement-level regex chain, `eval` and the expansion of
+lines remain covered differentially by the falsifier (random abstract lattices rendered in many spellings).
 -/
 namespace C13
-open Gen
+open Gen Text
 
 /-- the converter dispatch tables are the reviewed ones -/
 theorem converter_table_eq_spec : converterTable = pinnedConverterTable := by decide +kernel
@@ -20,5 +26,68 @@ theorem elegant_cavity_convention :
       some [("Cavity", ["frequency=torch.tensor(parsed['freq'])", "length=torch.tensor(parsed['l'])", "name=name",
                         "phase=torch.tensor(parsed['phase'] - 90)", "voltage=torch.tensor(parsed['volt'])"])] := by
   decide +kernel
+
+/-- both converters run exactly the modelled continuation passes, chained in the modelled order
+(regenerated from the converters' source on every run) -/
+theorem continuation_passes_are_modelled :
+    contPassesSrc =
+      ["elegant", "bmad"].map fun dialect =>
+        (dialect, (contPasses.zipIdx).map fun (p, i) =>
+          ("merged_lines", if i = 0 then "lines" else "merged_lines", String.singleton p.1, p.2)) := by
+  decide +kernel
+
+/-- **Line continuations (block structure).**  Whenever a merging pass succeeds, its output statements are, in file
+order, the gluings of consecutive non-empty blocks of the input lines; lines are glued only where the text so far ends
+with the continuation mark, and no emitted statement except possibly the last still ends with it.  (The final `strip`
+of each statement is applied on top.) -/
+theorem continuation_blocks (d : Char) (rm : Bool) (ls out : List Line) (h : merge d rm ls = some out) :
+    ∃ gs : List (List Line), gs.flatten = ls ∧ (∀ g ∈ gs, g ≠ [] ∧ licensed d rm g) ∧
+      out = (gs.map (joinGroup rm)).map strip ∧
+      ∀ l ∈ (gs.map (joinGroup rm)).dropLast, endsWith l d = false := by
+  simp only [merge, Option.map_eq_some_iff] at h
+  obtain ⟨o, ho, rfl⟩ := h
+  obtain ⟨gs, h1, h2, h3⟩ := mergeGo_groups d rm none ls o ho (by intro c hc; cases hc)
+  exact ⟨gs, h1, h2, by rw [h3], by rw [← h3]; exact mergeGo_resolved d rm none ls o ho⟩
+
+/-- **Kept mark (`,`, `{`): nothing but line breaks moves.**  Before the final strip, the character stream of the
+output equals that of the input. -/
+theorem continuation_keeps_text (d : Char) (ls o : List Line) (h : mergeGo d false none ls = some o) :
+    o.flatten = ls.flatten := by
+  simpa [accChars] using mergeGo_chars_keep d none ls o h
+
+/-- **Removed mark (`&`): exactly one mark per absorbed line disappears**, everything else survives in order. -/
+theorem continuation_removes_only_marks (d : Char) (ls o : List Line) (h : mergeGo d true none ls = some o) :
+    o.flatten.filter (· != d) = ls.flatten.filter (· != d) ∧
+      o.flatten.length + (ls.length - o.length) = ls.flatten.length := by
+  simpa [accChars, accLines] using mergeGo_chars_remove d none ls o h (by intro c hc; cases hc)
+
+/-- a file without continuation marks passes through unchanged (up to the strip) -/
+theorem continuation_identity (d : Char) (rm : Bool) (ls : List Line) (h : ∀ l ∈ ls, endsWith l d = false) :
+    merge d rm ls = some (ls.map strip) := by
+  simp [merge, mergeGo_id d rm ls h]
+
+/-- the converters' `assert len(merged_lines) <= len(lines)` can never fire -/
+theorem continuation_never_grows (ls out : List Line) (h : mergeAll ls = some out) : out.length ≤ ls.length :=
+  mergeAll_length_le ls out h
+
+/-- **Comments, blank lines and case.**  Every line `read_clean_lines` hands on has no comment, is not blank, has no
+surrounding blanks and no upper-case letter. -/
+theorem cleaned_lines (ls : List Line) :
+    ∀ l ∈ cleanLines ls, '!' ∉ l ∧ l ≠ [] ∧ strip l = l ∧ ∀ c ∈ l, c.isUpper = false :=
+  cleanLines_spec ls
+
+/-- **RPN expressions**: `a b op` is accepted and evaluated as the infix text `a op b` -/
+theorem rpn_is_infix (a b : Line) (o : Char) (ha : ' ' ∉ a) (hb : ' ' ∉ b)
+    (ho : o = '+' ∨ o = '-' ∨ o = '/' ∨ o = '*')
+    (hs : strip (a ++ ' ' :: (b ++ ' ' :: [o])) = a ++ ' ' :: (b ++ ' ' :: [o])) :
+    rpnValid (a ++ ' ' :: (b ++ ' ' :: [o])) = some true ∧
+      rpnInfix (a ++ ' ' :: (b ++ ' ' :: [o])) = some (a ++ ' ' :: ([o] ++ ' ' :: b)) :=
+  ⟨rpn_valid a b o ha hb ho hs,
+   rpn_reorder a b [o] ha hb (by rcases ho with rfl | rfl | rfl | rfl <;> decide) hs⟩
+
+/-! non-vacuity: a three-line statement with both marks -/
+example : mergeAll ["q1: quad, &".toList, "l=1,".toList, "k1=2".toList, "d: drift".toList]
+    = some ["q1: quad, l=1,k1=2".toList, "d: drift".toList] := by decide
+example : (rpnValid "lq 2 /".toList, rpnInfix "lq 2 /".toList) = (some true, some "lq / 2".toList) := by decide
 
 end C13
